@@ -9,6 +9,7 @@ import (
 	"golang.org/x/tools/go/ssa"
 
 	"verif/internal/core"
+	"verif/internal/own"
 )
 
 // pathWalker explores CFG paths from a starting point, tracking boolean SSA values fixed by the
@@ -185,7 +186,7 @@ func isByteSlice(t types.Type) bool {
 func init() {
 	core.Register(&core.Rule{
 		Name: "R-LITTRUNC",
-		Doc: "Package literal: (b1) every store that shortens a Seq's literal list (s.literals = s.literals[:n]) is followed on every path to return by s.partialCoverage = true (paths are followed with boolean phi/branch tracking); (b2) no return inside a collection loop hands back a non-empty partial collection (return NewSeq(collected...)); (a) every shortening slice of literal bytes that flows into a Literal (NewLiteral argument or Literal.Bytes store) comes with Complete == false on that path (constant false, a phi whose input on the truncating edge is false, or a Complete=false store in the same block). Necessary for C17 (a dropped literal makes the set non-covering; a truncated 'complete' literal is not a whole match), hence for C16 and C12 (limits may only change speed).",
+		Doc: "Package literal: (b1) every store that shortens a Seq's literal list (s.literals = s.literals[:n]) is followed on every path to return by s.partialCoverage = true (paths are followed with boolean phi/branch tracking); (b2) no return inside a collection loop hands back a non-empty partial collection (return NewSeq(collected...)); (b3) a rebuild of the list by appends that an iteration over the old list can skip (s.literals = kept) drops literals: if the function is reachable from a compile root, either every skip is decided by an exact-duplicate test only (map lookup on the literal's bytes, bytes.Equal), or partialCoverage = true follows on every path - dropping a literal in favour of its proper prefix (Minimize) keeps the candidates but the survivor no longer stands for a whole match of the dropped alternative; (a) every shortening slice of literal bytes that flows into a Literal (NewLiteral argument or Literal.Bytes store) comes with Complete == false on that path (constant false, a phi whose input on the truncating edge is false, or a Complete=false store in the same block). Necessary for C17 (a dropped literal makes the set non-covering; a truncated 'complete' literal is not a whole match), hence for C16 and C12 (limits may only change speed).",
 		Min: 15, NeedSSA: true,
 		Run: func(p *core.Prog) *core.RuleResult {
 			res := &core.RuleResult{}
@@ -195,7 +196,7 @@ func init() {
 				return res
 			}
 			kc := core.NewKeyCounter()
-			nb1, nb2, na := 0, 0, 0
+			nb1, nb2, nb3, na := 0, 0, 0, 0
 			for _, fn := range p.SrcFuncs() {
 				if fn.Pkg != pk || strings.HasSuffix(p.File(fn.Pos()), "_test.go") {
 					continue
@@ -238,6 +239,15 @@ func init() {
 										o.Detail = "literal list shortened but a " + w.failure + " (return) without partialCoverage = true: the set silently stops covering every branch"
 									}
 									res.Obligations = append(res.Obligations, o)
+								}
+							}
+							// (b3) filtered rebuild: s.literals = kept, where kept is accumulated by appends that an iteration can skip
+							if base, ok := isNamedStructField(x.Addr, "Seq", "literals"); ok && appendAccumulated(x.Val, 0) {
+								if _, isSl := x.Val.(*ssa.Slice); !isSl {
+									if o, found := filteredRebuild(p, fn, x, base, comp, cyclic, kc, compileReach(p)); found {
+										nb3++
+										res.Obligations = append(res.Obligations, o)
+									}
 								}
 							}
 							// (a) store into Literal.Bytes of a shortening slice
@@ -317,7 +327,7 @@ func init() {
 					}
 				}
 			}
-			res.Notes = append(res.Notes, fmt.Sprintf("list truncations=%d returns-in-collection-loops=%d byte truncations=%d", nb1, nb2, na))
+			res.Notes = append(res.Notes, fmt.Sprintf("list truncations=%d returns-in-collection-loops=%d filtered rebuilds=%d byte truncations=%d", nb1, nb2, nb3, na))
 			return res
 		},
 	})
@@ -408,4 +418,275 @@ func appendAccumulated(v ssa.Value, depth int) bool {
 		return appendAccumulated(x.X, depth+1)
 	}
 	return false
+}
+
+
+var compileReachMemo map[*core.Prog]map[*ssa.Function]bool
+
+// compileReach: functions reachable in the call graph from the compile roots (non-test code only).
+func compileReach(p *core.Prog) map[*ssa.Function]bool {
+	if compileReachMemo == nil {
+		compileReachMemo = map[*core.Prog]map[*ssa.Function]bool{}
+	}
+	if m := compileReachMemo[p]; m != nil {
+		return m
+	}
+	cg := p.CallGraph()
+	reach := map[*ssa.Function]bool{}
+	var work []*ssa.Function
+	for _, fn := range p.SrcFuncs() {
+		if own.IsCompileRoot(fn) && !strings.HasSuffix(p.File(fn.Pos()), "_test.go") {
+			reach[fn] = true
+			work = append(work, fn)
+		}
+	}
+	for len(work) > 0 {
+		f := work[0]
+		work = work[1:]
+		if n := cg.Nodes[f]; n != nil {
+			for _, e := range n.Out {
+				c := e.Callee.Func
+				if !reach[c] && !strings.HasSuffix(p.File(c.Pos()), "_test.go") {
+					reach[c] = true
+					work = append(work, c)
+				}
+			}
+		}
+	}
+	compileReachMemo[p] = reach
+	return reach
+}
+
+// filteredRebuildExempt: (function) -> reason why its skipping iteration paths drop nothing.
+var filteredRebuildExempt = map[string]string{
+	"(*literal.Seq).CrossForward": "each left literal is either kept as it is (inexact) or replaced by its products with every literal of other, and other is non-empty (tested at entry): no iteration drops its literal",
+}
+
+// filteredRebuild decides clause (b3) for the store st of an append-accumulated slice into base.literals.
+func filteredRebuild(p *core.Prog, fn *ssa.Function, st *ssa.Store, base ssa.Value, comp []int, cyclic map[int]bool, kc *core.KeyCounter, reach map[*ssa.Function]bool) (core.Obligation, bool) {
+	// the appends that build the stored value
+	web := map[ssa.Value]bool{}
+	var collect func(v ssa.Value, d int)
+	collect = func(v ssa.Value, d int) {
+		if d > 8 || web[v] {
+			return
+		}
+		switch x := v.(type) {
+		case *ssa.Call:
+			if isAppendCall(x) {
+				web[x] = true
+				collect(x.Call.Args[0], d+1)
+			}
+		case *ssa.Phi:
+			web[x] = true
+			for _, e := range x.Edges {
+				collect(e, d+1)
+			}
+		}
+	}
+	collect(st.Val, 0)
+	appendBlocks := map[*ssa.BasicBlock]bool{}
+	loopSCC := -1
+	for v := range web {
+		if c, ok := v.(*ssa.Call); ok && cyclic[comp[c.Block().Index]] {
+			appendBlocks[c.Block()] = true
+		}
+	}
+	if len(appendBlocks) == 0 {
+		return core.Obligation{}, false
+	}
+	// outermost loop: the SCC of the loop-carried phi of the web that has an edge from outside its SCC
+	var header *ssa.BasicBlock
+	for v := range web {
+		ph, ok := v.(*ssa.Phi)
+		if !ok || !cyclic[comp[ph.Block().Index]] {
+			continue
+		}
+		fromOutside := false
+		for _, pr := range ph.Block().Preds {
+			if comp[pr.Index] != comp[ph.Block().Index] {
+				fromOutside = true
+			}
+		}
+		if fromOutside && (header == nil || ph.Block().Dominates(header)) {
+			header = ph.Block()
+		}
+	}
+	if header == nil {
+		return core.Obligation{}, false
+	}
+	loopSCC = comp[header.Index]
+	// does the loop range over the old list of the same Seq?
+	overOld := false
+	for _, b := range fn.Blocks {
+		if comp[b.Index] != loopSCC && !header.Dominates(b) {
+			continue
+		}
+		for _, in := range b.Instrs {
+			if ia, ok := in.(*ssa.IndexAddr); ok {
+				if u, ok := ia.X.(*ssa.UnOp); ok {
+					if b2, ok := isNamedStructField(u.X, "Seq", "literals"); ok && sameExpr(b2, base, 0) {
+						overOld = true
+					}
+				}
+			}
+		}
+	}
+	for _, in := range header.Instrs {
+		_ = in
+	}
+	if !overOld {
+		// also: `for _, lit := range s.literals` loads the field before the loop
+		for _, b := range fn.Blocks {
+			for _, in := range b.Instrs {
+				if u, ok := in.(*ssa.UnOp); ok {
+					if b2, ok := isNamedStructField(u.X, "Seq", "literals"); ok && sameExpr(b2, base, 0) {
+						for _, r := range *u.Referrers() {
+							if ia, ok := r.(*ssa.IndexAddr); ok && (comp[ia.Block().Index] == loopSCC) {
+								overOld = true
+							}
+						}
+					}
+				}
+			}
+		}
+	}
+	if !overOld {
+		return core.Obligation{}, false
+	}
+	// a path through one iteration (header -> latch) that avoids every append; nested loops (other SCC members dominated
+	// by the header) are part of the iteration
+	inIter := func(b *ssa.BasicBlock) bool { return comp[b.Index] == loopSCC }
+	seen := map[*ssa.BasicBlock]bool{}
+	var skipPath bool
+	var dfs func(b *ssa.BasicBlock)
+	dfs = func(b *ssa.BasicBlock) {
+		if seen[b] || !inIter(b) || appendBlocks[b] {
+			return
+		}
+		seen[b] = true
+		for _, sc := range b.Succs {
+			if sc == header {
+				skipPath = true
+				return
+			}
+			dfs(sc)
+		}
+	}
+	dfs(header)
+	o := core.Obligation{Key: kc.Key("R-LITTRUNC", core.FuncName(fn), "filtered rebuild of []Literal"), Pos: p.Pos(st.Pos()), Nontrivial: true}
+	if !skipPath {
+		o.Status = core.Discharged
+		o.Detail = "every iteration over the old list appends to the new one: nothing is dropped"
+		return o, true
+	}
+	if why := filteredRebuildExempt[core.FuncName(fn)]; why != "" {
+		o.Status = core.Discharged
+		o.Detail = "exempt: " + why
+		return o, true
+	}
+	if !reach[fn] {
+		o.Status = core.Discharged
+		o.Nontrivial = false
+		o.Detail = "the function drops literals but is not reachable from a compile root (not used when a pattern is compiled)"
+		return o, true
+	}
+	// are the skips decided by exact-duplicate tests only?
+	dupOnly := true
+	var offending string
+	var leafOK func(v ssa.Value, d int, seenV map[ssa.Value]bool) bool
+	leafOK = func(v ssa.Value, d int, seenV map[ssa.Value]bool) bool {
+		if d > 10 || seenV[v] {
+			return true
+		}
+		seenV[v] = true
+		switch x := v.(type) {
+		case *ssa.Const:
+			return true
+		case *ssa.UnOp:
+			if x.Op == token.NOT {
+				return leafOK(x.X, d+1, seenV)
+			}
+			return false
+		case *ssa.Phi:
+			for _, e := range x.Edges {
+				if !leafOK(e, d+1, seenV) {
+					return false
+				}
+			}
+			return true
+		case *ssa.Extract:
+			if lk, ok := x.Tuple.(*ssa.Lookup); ok && lk.CommaOk {
+				return true
+			}
+			return false
+		case *ssa.BinOp:
+			// loop bookkeeping (i < n) is not a filter
+			if isIntType(x.X.Type()) && isIntType(x.Y.Type()) {
+				return true
+			}
+			return false
+		case *ssa.Call:
+			if cal := x.Call.StaticCallee(); cal != nil && cal.Pkg != nil && cal.Pkg.Pkg.Path() == "bytes" && cal.Name() == "Equal" {
+				return true
+			}
+			return false
+		}
+		return false
+	}
+	for _, b := range fn.Blocks {
+		if !inIter(b) || len(b.Instrs) == 0 {
+			continue
+		}
+		iff, ok := b.Instrs[len(b.Instrs)-1].(*ssa.If)
+		if !ok {
+			continue
+		}
+		// every branch inside the iteration takes part in deciding whether the literal is kept (a skip flag set in an
+		// inner loop reaches the deciding branch as a phi of constants), so all of them must be duplicate tests or loop bookkeeping
+		if !leafOK(iff.Cond, 0, map[ssa.Value]bool{}) {
+			dupOnly = false
+			offending = p.Pos(iff.Cond.Pos())
+		}
+	}
+	if dupOnly {
+		o.Status = core.Discharged
+		o.Detail = "literals are skipped only when an equal literal was already kept (exact-duplicate test)"
+		return o, true
+	}
+	// partialCoverage = true on every path after the store?
+	w := &pathWalker{p: p, budget: 4000,
+		goal: func(in ssa.Instruction) bool {
+			s2, ok := in.(*ssa.Store)
+			if !ok {
+				return false
+			}
+			b2, ok := isNamedStructField(s2.Addr, "Seq", "partialCoverage")
+			if !ok || !sameExpr(b2, base, 0) {
+				return false
+			}
+			v, known := evalBool(s2.Val, nil)
+			return known && v
+		},
+		isExit: func(in ssa.Instruction) (bool, bool) {
+			if _, ok := in.(*ssa.Return); ok {
+				return true, false
+			}
+			return false, false
+		}}
+	idx := 0
+	for i, in := range st.Block().Instrs {
+		if in == ssa.Instruction(st) {
+			idx = i
+		}
+	}
+	w.walk(st.Block(), idx+1, boolEnv{}, map[string]bool{})
+	if w.failure == "" {
+		o.Status = core.Discharged
+		o.Detail = "the rebuild drops literals and marks the set partial on every path"
+		return o, true
+	}
+	o.Status = core.Violated
+	o.Detail = fmt.Sprintf("the literal list is rebuilt with some literals left out (skip decided at %s by something other than an exact-duplicate test) on a path used when compiling a pattern, and the set is not marked partial: a literal dropped in favour of its prefix leaves a survivor that still claims to be a complete match, so a 'complete' prefilter reports the shorter alternative's span", offending)
+	return o, true
 }
